@@ -4,7 +4,7 @@
 
 From stdpp Require Import gmap list.
 From Coq Require Import NArith.
-From DC Require Import Ts Orswot OrswotInv OrswotLww OrswotTimely OrswotPurge.
+From DC Require Import Ts Orswot OrswotInv OrswotLww OrswotTimely OrswotPurge OrswotMerge OrswotMergeCut.
 Open Scope N_scope.
 
 (** A purge never changes the live entries or the versions... *)
@@ -34,6 +34,30 @@ Theorem C08_purged_delete_stays_rejected :
     (apply_op false s' o).2 = false /\
     entries (apply_op false s' o).1 = entries s' /\ dead (apply_op false s' o).1 = dead s'.
 Proof. exact purged_delete_stays_rejected. Qed.
+
+(** The same with MERGES in the replica's further life ([OrswotMergeCut.v]): whatever the replica
+    does after the purge - operations, purges, merging in the state of any other replica with the
+    same number of sources - an operation of the deleting node that is not newer than the purged
+    delete is refused and changes nothing. *)
+Theorem C08_purged_delete_stays_rejected_through_merges :
+  forall s k d es o,
+    Inv s -> (k, d) ∈ (set_purge s).1 ->
+    valid_ts d = true -> 1 <= ts_tick d ->
+    Forall (mev_valid (length (maxs (versions s)))) es ->
+    valid_ts (op_ts o) = true -> ts_node (op_ts o) = ts_node d -> (d <? op_ts o) = false ->
+    let s' := run_mevs (set_purge s).2 es in
+    (op_src o < length (maxs (versions s)))%nat ->
+    (apply_op false s' o).2 = false /\
+    entries (apply_op false s' o).1 = entries s' /\ dead (apply_op false s' o).1 = dead s'.
+Proof. exact purged_delete_stays_rejected_merges. Qed.
+
+(** Merging in another replica's state never moves a cut-off backwards. *)
+Theorem C08_merge_never_moves_a_cutoff_back :
+  forall a b d,
+    Inv a -> Inv b -> length (maxs (versions a)) = length (maxs (versions b)) ->
+    valid_ts d = true -> 1 <= ts_tick d ->
+    before (versions a) d = true -> before (versions (set_merge a b)) d = true.
+Proof. exact merge_keeps_cutoff. Qed.
 
 (** The cut-off never moves backwards (for stamps after the first tick of the epoch). *)
 Theorem C08_cutoff_monotone :
@@ -90,3 +114,21 @@ Proof.
   - apply timely_b_sound. vm_compute. reflexivity.
   - split; vm_compute; reflexivity.
 Qed.
+
+(** Non-vacuity with a merge: node 1's delete of key 1 is purged on replica [a]; a stale replica
+    [b] that has seen only an early stamp of node 1 is merged in; the purged delete itself and an
+    older insert of node 1 are still refused as OPERATIONS.  (What the merge itself takes over from
+    a replica that lags by more than the forgiveness period is outside C08's premise: [merge]
+    checks the cut-off for the other side's tombstones only - C03/C05 are about that.) *)
+Example C08_nonvacuous_merge :
+  let t0 := mk_ts 1000000 0 1 in          (* node 1 puts key 1      *)
+  let t1 := mk_ts 1000100 0 1 in          (* node 1 deletes key 1   *)
+  let t3 := mk_ts 2000000 0 1 in          (* node 1, 4000 s later   *)
+  let a := run_ops false (empty_set 2)
+             [OIns 0 1 t0; ODel 0 1 t1; OIns 0 7 t3; OIns 1 7 t3] in
+  let b := run_ops false (empty_set 2) [OIns 0 1 t0; OIns 1 1 t0] in
+  let s' := run_mevs (set_purge a).2 [MMerge b] in
+  (set_purge a).1 = [(1, t1)] /\
+  (apply_op false s' (ODel 0 1 t1)).2 = false /\
+  (apply_op false s' (OIns 1 1 t0)).2 = false.
+Proof. vm_compute. repeat split; reflexivity. Qed.
